@@ -413,3 +413,14 @@ def run(ck, prog):
     buffer_reuse(ck, prog)
     centred_cov(ck, prog)
     ck.floor("E2f-centred", 4)
+
+
+# ------------------------------------------------------------------ generic: rows/cols (outer/inner) mix-up of locally allocated buffers
+_run_pre_dimension = run
+DIMENSION_FILES = ['src/linalg/high_order.rs', 'src/linalg/mod.rs', 'src/linalg/naive/dense_matrix.rs', 'src/linalg/stats.rs']
+
+
+def run(ck, prog):
+    _run_pre_dimension(ck, prog)
+    from sa import dimension
+    dimension.run_rule(ck, prog, set(DIMENSION_FILES))
